@@ -795,6 +795,14 @@ func TestVerifC01(t *testing.T) {
 			t.Fatalf("world: %v", err)
 		}
 		emitHist(cons, 4, res5.hist.spec, res5, "script-bls-rogue-key-forged-certificates")
+		res7, err := c01EquivocatingLeader(cons, 7)
+		if err != nil {
+			t.Fatalf("world: %v", err)
+		}
+		if len(res7.commits["r1n0"]) < 1 {
+			v.Oracle(false, "harness:equivocating-leader-script-first-branch-does-not-commit:"+cons, fmt.Sprintf("replica 1 committed %v", res7.commits["r1n0"]), nil)
+		}
+		emitHist(cons, 4, res7.hist.spec, res7, "script-equivocating-leader-common-voter")
 		res6, err := c01FetchedBeforeProposal(cons, 7)
 		if err != nil {
 			t.Fatalf("world: %v", err)
@@ -1832,6 +1840,99 @@ func c01StaleLockDeep(cons string, seed int64) (*c01Result, error) {
 		send(nb, h2, h3)
 		q, okf = certify(nb)
 		parent = nb
+	}
+	return c01Finish(h, live, 0), nil
+}
+
+// c01EquivocatingLeader: one vote per view, whatever the rule set does with its view argument. The Byzantine
+// leader of every view proposes two blocks per view: a_v (a chain from genesis) to replicas 1 and 2, then
+// b_v (another chain from genesis) to replicas 2 and 3. Replica 2 sees both; having voted for a_v it must
+// refuse b_v, so the b chain never gets a certificate. A replica 2 that votes twice per view certifies both
+// chains, and replicas 1 and 3 commit different blocks at position 1.
+func c01EquivocatingLeader(cons string, seed int64) (*c01Result, error) {
+	spec := wSpec{consensus: cons, n: 4, byz: []hotstuff.ID{4}, seed: seed}
+	for i := 0; i < 20; i++ {
+		spec.leaders = append(spec.leaders, 4)
+	}
+	w, err := newWorld(spec)
+	if err != nil {
+		return nil, err
+	}
+	h := newC01Hist(w, spec)
+	B := w.nodes[NodeID{ReplicaID: 4}]
+	h1, h2, h3 := w.nodes[NodeID{ReplicaID: 1}], w.nodes[NodeID{ReplicaID: 2}], w.nodes[NodeID{ReplicaID: 3}]
+	live := []*wNode{h1, h2, h3}
+	for _, id := range w.order {
+		w.partition[id] = 0
+	}
+	flush := func() {
+		for guard := 0; len(w.pending) > 0 && guard < 10000; guard++ {
+			m := w.pending[0]
+			w.pending = w.pending[1:]
+			to := w.nodes[m.to]
+			if to.byz {
+				w.byzHandle(to, m.payload)
+				h.observe(nil)
+				continue
+			}
+			if p, ok := m.payload.(hotstuff.ProposeMsg); ok {
+				w.regProposal(&p)
+			}
+			to.eventLoop.AddEvent(m.payload)
+			w.drain(to)
+			h.observe(to)
+		}
+	}
+	k := 0
+	mk := func(view hotstuff.View, parent hotstuff.Hash, qc hotstuff.QuorumCert) *hotstuff.Block {
+		k++
+		b := hotstuff.NewBlock(parent, qc, &clientpb.Batch{Commands: []*clientpb.Command{{ClientID: 99, SequenceNumber: uint64(k), Data: []byte("byz")}}}, view, 4)
+		w.regBlock(b)
+		B.blockchain.Store(b)
+		return b
+	}
+	send := func(b *hotstuff.Block, to ...*wNode) {
+		for _, nd := range to {
+			w.byzSendTo(B, nd, hotstuff.ProposeMsg{ID: 4, Block: b})
+		}
+		flush()
+	}
+	certify := func(b *hotstuff.Block) (hotstuff.QuorumCert, bool) {
+		if pc, err := B.auth.CreatePartialCert(b); err == nil {
+			B.votesSeen[b.Hash()] = append(B.votesSeen[b.Hash()], pc)
+		}
+		w.byzAssemble(B)
+		h.observe(nil)
+		for _, q := range w.qcs {
+			if q.BlockHash() == b.Hash() {
+				return q, true
+			}
+		}
+		return hotstuff.QuorumCert{}, false
+	}
+	gen := hotstuff.GetGenesis()
+	genQC := B.viewStates.HighQC()
+	pa, qa, oka := gen.Hash(), genQC, true
+	pb, qb, okb := gen.Hash(), genQC, true
+	for v := hotstuff.View(1); v <= 6; v++ {
+		if oka {
+			a := mk(v, pa, qa)
+			send(a, h1, h2)
+			if q, ok := certify(a); ok {
+				pa, qa = a.Hash(), q
+			} else {
+				oka = false
+			}
+		}
+		if okb {
+			b := mk(v, pb, qb)
+			send(b, h2, h3)
+			if q, ok := certify(b); ok {
+				pb, qb = b.Hash(), q
+			} else {
+				okb = false
+			}
+		}
 	}
 	return c01Finish(h, live, 0), nil
 }
